@@ -1314,6 +1314,7 @@ def sort(x, /, *, axis=-1, descending=False, stable=False):
         raise ValueError("`stable=True` isn't currently supported.")
 
     original_ndim = x.ndim
+    axis = normalize_axis(axis, x.ndim)
     if x.ndim == 1:
         x = x[None, :]
         axis = -1
